@@ -123,6 +123,7 @@ class Pool:
             return
         root, node, desc, info = cands[(i * 61 + k) % len(cands)]
         known = {id(n) for it in self.items for n in astx.preorder(it[0])}
+        armed = core.arm_call_limit()
         try:
             res = self._apply(name, node, root, x, info)
         except Violation:
@@ -131,6 +132,8 @@ class Pool:
             res = None  # whether calls fail is the business of C07/C14; here only existing trees matter
         except Exception as e:  # HplSanityError etc.
             res = None
+        finally:
+            core.disarm_call_limit(armed)
         if res is not None:
             results = [r for r in (res if isinstance(res, (list, tuple)) else [res]) if hasattr(r, '__attrs_attrs__') and r is not node]
             # first the plain invariant (so that an in-place change is reported as such), then the metadata probes;
